@@ -56,10 +56,11 @@ struct Conn {
     bool client_closed = false;                 // client closed / shut down
     bool established = false;
     uint64_t bytes_c2b = 0, bytes_b2c_read = 0; int64_t last_read_ns = -1, first_read_start_ns = -1; std::vector<std::pair<uint64_t, int64_t>> read_marks;   // (cumulative bytes read, time)
+    std::vector<size_t> read_mark_seq;   // op_seq at each read mark (orders reads against later write starts)
 };
 
 struct NetLogEntry { int64_t t; std::string what; };
-struct WriteLog { int conn; int stream; std::string data; bool ok; size_t reported; int64_t t; size_t wire_mark; int64_t t_start; size_t seq_start; };
+struct WriteLog { int conn; int stream; std::string data; bool ok; size_t reported; int64_t t; size_t wire_mark; int64_t t_start; size_t seq_start; size_t seq_done; };   // seq_done: op_seq when the write completed
 
 // Callbacks implemented by the broker model.
 struct BrokerHooks {
